@@ -4,6 +4,8 @@
 def f(x):
     a = x + 1
     b = a * 2
+    c: "@T" = x          # annotated binding, then a plain re-binding of the same variable
+    c = c + 1
     r = g(b)
     return r
 
